@@ -323,6 +323,22 @@ func runC06(r *mc.Run) {
 			for _, d := range []time.Duration{-time.Nanosecond, time.Nanosecond, 500 * time.Millisecond, -500 * time.Millisecond} {
 				zoneVals = append(zoneVals, tv{fmt.Sprintf("m%+d%+v", k, d), e.Add(d)})
 			}
+			// far later: one second before the instant plus a span after which a counter of seconds / nanoseconds kept
+			// in 31, 32, 63 or 64 bits comes round again (68 / 136 / 292 / 584 years), and plain centuries
+			const half = time.Duration(1<<63 - 1)
+			for _, w := range []struct {
+				n string
+				f func(t time.Time) time.Time
+			}{
+				{"+2^31s", func(t time.Time) time.Time { return t.Add(time.Duration(1<<31) * time.Second) }},
+				{"+2^32s", func(t time.Time) time.Time { return t.Add(time.Duration(1<<32) * time.Second) }},
+				{"+2^63ns", func(t time.Time) time.Time { return t.Add(half).Add(1) }},
+				{"+2^64ns", func(t time.Time) time.Time { return t.Add(half).Add(half).Add(2) }},
+				{"+100y", func(t time.Time) time.Time { return t.AddDate(100, 0, 0) }},
+				{"+1000y", func(t time.Time) time.Time { return t.AddDate(1000, 0, 0) }},
+			} {
+				zoneVals = append(zoneVals, tv{fmt.Sprintf("m%+d-1s%s", k, w.n), w.f(e.Add(-time.Second))})
+			}
 			zoneVals = append(zoneVals, tv{fmt.Sprintf("m%+d+1h@utc-8", k), e.Add(time.Hour).In(time.FixedZone("UTC-8", -8*3600))},
 				tv{fmt.Sprintf("m%+d-1h@utc+5:30", k), e.Add(-time.Hour).In(time.FixedZone("UTC+5:30", 5*3600+1800))})
 		}
